@@ -5,6 +5,11 @@ harness compares with the same list computed from the real rebuilt object.  Not 
   (roundtrip <kind> <object> <whitelist> <blacklist>)      fresh parent-less target of that kind
   (roundtrip-in-font glyph|layer <object> none none)       fresh target inside a font (dispatcher, parents)
   (keys <kind> <object> <whitelist> <blacklist>)           keys of the data dictionary, in order
+  (roundtrip… <kind> <object> none none (look <before> (k …)))
+                                                           … a new object somebody looks at: `before` = its derived
+                                                           data were read while it was still empty (a layer: the
+                                                           unicode-data object exists), `k …` = an observer of
+                                                           `Layer.GlyphAdded` reads them at the k-th glyph of a layer
 
 Facts whose last path component starts with `@` are wiring / registry / propagation facts.
 -/
@@ -157,6 +162,8 @@ def layerFacts (p : String) (ly : Layer) : List Fact :=
   ++ wiring p ly.parent ly.observed
   ++ ly.glyphs.flatMap (fun ng => glyphAll (p ++ "/G/" ++ ng.1) ng.2)
   ++ [(p ++ "/G/@names", SExp.list (.atom "set" :: ly.glyphs.map (fun ng => SExp.str ng.1)))]
+  -- what `layer.unicodeData` answers now, glyph by glyph
+  ++ [(p ++ "/@cmap", SExp.list (.atom "set" :: ly.unicodeData.map (fun nu => SExp.list [.str nu.1, .str nu.2])))]
 
 def layerSetFacts (p : String) (ls : LayerSet) : List Fact :=
   [(p ++ "/order", SExp.list (ls.layers.map (fun nl => SExp.str nl.1))), (p ++ "/default", .str ls.default)]
@@ -190,21 +197,33 @@ def keysOut {δ} (d : List (String × δ)) : SExp := tagged "keys" ((AL.keys d).
 
 /-! ### the operations -/
 
-def roundtrip (kind : String) (obj : SExp) (wl bl : Option (List String)) (inFont : Bool) : Option SExp :=
+/-- who looks at the new object: (its derived data were read before the data came in, the schedule of the
+observer of `Layer.GlyphAdded`) -/
+abbrev Look := Bool × List Nat
+
+def pLook : SExp → Option Look
+  | .list [.atom "look", b, ks] => do some ((← asBool? b), (← asListOf? asNat? ks))
+  | _ => none
+
+def roundtrip (kind : String) (obj : SExp) (wl bl : Option (List String)) (inFont : Bool) (look : Look := (false, [])) :
+    Option SExp :=
   match kind, inFont with
   | "font", false => do
     let f ← pFont obj
-    let r := Font.deser (f.ser wl bl) {}
+    -- (what was read of the new font before belongs to the layer set that is replaced)
+    let r := Font.deser (f.ser wl bl) { layers := { parent := true, observed := true, disp := true, peekAt := look.2 } }
     some (result r.error (fontFacts r))
   | "layerSet", false => do
     let o ← pLayerSet obj
     -- the new layer set is `font.instantiateLayerSet()` of a new font (a layer set without a font cannot hold glyphs)
-    let r := LayerSet.deser (o.ser wl bl) { parent := true, observed := false, disp := true }
+    let r := LayerSet.deser (o.ser wl bl) { parent := true, observed := false, disp := true, peekAt := look.2 }
     some (result r.err (layerSetFacts "layers" r ++ propFacts (r.propagation "layers" true)))
   | "layer", _ => do
     let o ← pLayer obj
+    let cache : Option (List (Val × Val)) := if look.1 then some [] else none
     let r := Layer.deser (o.ser wl bl)
-      (if inFont then { name := o.name, parent := true, observed := true, disp := true } else {})
+      (if inFont then { name := o.name, parent := true, observed := true, disp := true, ucache := cache, peekAt := look.2 }
+       else { ucache := cache, peekAt := look.2 })
     some (result r.err (layerFacts "layer" r ++ propFacts (r.propagation "layer" inFont)))
   | "glyph", _ => do
     let o ← pGlyph obj
@@ -277,6 +296,10 @@ def driverStep (s : Unit) (line : SExp) : Unit × SExp :=
       roundtrip kind obj (← pKeys wl) (← pKeys bl) false
     | .list [.atom "roundtrip-in-font", .atom kind, obj, wl, bl] => do
       roundtrip kind obj (← pKeys wl) (← pKeys bl) true
+    | .list [.atom "roundtrip", .atom kind, obj, wl, bl, look] => do
+      roundtrip kind obj (← pKeys wl) (← pKeys bl) false (← pLook look)
+    | .list [.atom "roundtrip-in-font", .atom kind, obj, wl, bl, look] => do
+      roundtrip kind obj (← pKeys wl) (← pKeys bl) true (← pLook look)
     | .list [.atom "keys", .atom kind, obj, wl, bl] => do
       keysOf kind obj (← pKeys wl) (← pKeys bl)
     | _ => none
